@@ -571,6 +571,9 @@ func cmdRun(prop string, args []string) int {
 	if detOverride > 0 {
 		tc.DetRuns = detOverride
 	}
+	if v, err := strconv.Atoi(os.Getenv("VERIF_SHRINK_SECONDS")); err == nil && v > 0 {
+		tc.ShrinkSec = v // a shorter minimisation budget (re-checks of many seeded changes); the verdict does not depend on it
+	}
 	seed := uint64(20260929)
 	if tier == "thorough" {
 		seed = 7777
